@@ -10,7 +10,7 @@ ID = "C06"
 # look-alikes of prelude names (vlib/defs.py HOSTILE) this check's derives are immune to on the unchanged tree
 HOSTILE_OK = ['Default', 'From', 'Into', 'Result', 'Option', 'Some', 'Ok', 'Iterator', 'Clone', 'AsRef', 'Send', 'PhantomData', 'IterGet', 'm_matches', 'm_assert', 'm_fmt', 'c_binders', 'no_implicit_prelude', 'ByValue']
 PROP_FILE = "Props/C06.v"
-THEOREMS = ["C06_iff", "C06_none", "C06_roundtrip", "C06_const", "C06_total", "C06_program", "C06_program_complete", "C06_repr_scan", "C06_nonvacuous"]
+THEOREMS = ["C06_iff", "C06_none", "C06_roundtrip", "C06_const", "C06_total", "C06_program", "C06_program_complete", "C06_repr_scan", "C06_nonvacuous", "C06_repr_scan_nonvacuous"]
 RULE = ("definitions: repr type x explicit/implicit discriminant shapes (negative, gapped, descending, expression-valued) "
         "x every placement of disabled variants x variant kinds x generics; inputs: EVERY value of 8- and 16-bit "
         "discriminant types (sweep, compared as the table of Some entries), for wider types every discriminant and its "
